@@ -648,6 +648,17 @@ impl WorldA {
                     && self.sch.iter().zip(self.cch.iter()).all(|(a, b)| a.id == b.id && a.kind == b.kind && a.max_mem == b.max_mem && a.resend_ms == b.resend_ms);
                 if !self.ep_exists(i, SV) {
                     self.connect(i, same);
+                } else {
+                    // an application asking for a local client under an id the server already holds (live, or disconnected
+                    // and not removed yet): add_connection "does nothing if a connection already exists", so the server's
+                    // connection stays what it was and nothing is reported; the surplus handle is dropped
+                    let before = self.server.verif_connection(id).map(|sc| (sc.is_disconnected(), sc.disconnect_reason()));
+                    let _surplus = self.server.new_local_client(id);
+                    let after = self.server.verif_connection(id).map(|sc| (sc.is_disconnected(), sc.disconnect_reason()));
+                    obs.count("oracle.C12.taken_id_left_alone");
+                    if before != after {
+                        obs.violate("C12", "connection-replaced-without-report", "new_local_client", format!("client {}: {:?} -> {:?}", id, before, after));
+                    }
                 }
             }
             9 => {
